@@ -1,5 +1,6 @@
 import Relay.Base.GoLite
 import Relay.Extracted.GenPermission
+import Relay.Extracted.GenTtlcode
 
 /-!
 # What the access handlers receive as `principal interface{}`
@@ -34,15 +35,30 @@ structure NoParams where
   mk ::
 deriving Inhabited
 
+/-- path parameter of POST /session/{session_id} -/
+structure SessionParams where
+  SessionID : String := ""
+deriving Inhabited
+
 /-- a go-openapi responder: status code and payload -/
 inductive Resp where
   | status (code : Nat)
   | error (code : Nat) (c m : String)            -- models.Error{Code, Message}
   | ids (code : Nat) (l : List String)           -- models.BookingIDs
+  | text (code : Nat) (s : String)               -- a plain string payload
+  | uri (code : Nat) (u : String)                -- operations.SessionOKBody{URI}
 deriving Inhabited, DecidableEq, Repr
 
 def Resp.code : Resp → Nat
-  | .status c | .error c _ _ | .ids c _ => c
+  | .status c | .error c _ _ | .ids c _ | .text c _ | .uri c _ => c
+
+/-- the code store keeps the whole connection token; its translation abstracts every field but the booking id into an
+    opaque `payload` (`Go.Token`). `tokenId` is that abstraction: ANY function — nothing depends on which. -/
+opaque tokenId : Gen.permission.Token → Nat
+
+/-- `config.CodeStore.SubmitToken(pt)` seen from the access package -/
+def submitToken (w : World) (cs : Gen.ttlcode.CodeStore) (pt : Gen.permission.Token) : String × Gen.ttlcode.CodeStore :=
+  Gen.ttlcode.CodeStore.SubmitToken w cs { BookingID := pt.BookingID, payload := tokenId pt }
 
 /-- `err.Error()` (only evaluated where `err != nil` was tested) -/
 def errStr (e : Error) : String := e.getD ""
